@@ -34,7 +34,7 @@ def suite(wt):
         m = re.match(r'test (\S+) \.\.\. (\w+)', line)
         if m and cur:
             (passed if m.group(2) == 'ok' else failed).add(cur + '::' + m.group(1))
-    if 'error: could not compile' in out or 'error[E' in out:
+    if not passed:
         return ['(does not compile)'], [], out[-3000:]
     return sorted(stable - passed), sorted(failed), ''
 
